@@ -523,5 +523,6 @@ func TestReplay(t *testing.T) {
 			vs, _, _ := Check(c)
 			return vs
 		},
+		"TestMySQLPrograms": replayMy,
 	})
 }
